@@ -248,7 +248,10 @@ class K3State:
         if m:
             return self.probe(I, int(m.group(1)))
         if k == 'repeat':
-            return VFunc('repeat', impl=self.repeat_call)
+            f = VFunc('repeat', impl=self.repeat_call)
+            f.kind = 'repeatdict'       # also subscriptable: see repeat_get / repeat_set
+            f.state = self
+            return f
         present, value = scope_visible(self.econtext, key)
         if not I.decide(present, 'name-defined'):
             raise Raised(VExc(NameError, [key]))
@@ -341,6 +344,11 @@ class K3State:
                 I.assume(z3.Not(gdef(z3.StringVal(nm))))
             lo.has, lo.val = nl.has, nl.val
             gm.has, gm.val = ng.has, ng.val
+            # repeat dictionary: a child leaves every entry it finds as it found it (a nested
+            # tal:repeat over the same name restores it: post `repeat_restored` of S-Repeat, by
+            # induction); entries for other keys may appear
+            for nm in list(g.get('repeat_map', {})):
+                g.setdefault('repeat_kept', {}).setdefault(nm, []).append(z3.BoolVal(True))
             return NONE
         g['hole_raised'].setdefault(k, []).append(True)
         # exceptional exit: output so far is a prefix; scope, rcontext and i18n locals arbitrary
@@ -349,6 +357,8 @@ class K3State:
             rec.fields[fld].has, rec.fields[fld].val = f.has, f.val
         for nm in ('__i18n_domain', '__i18n_context', 'target_language'):
             I.env[nm] = fresh(ANY, 'after_raise' + nm)
+        for nm in list(g.get('repeat_map', {})):
+            g['repeat_map'][nm] = z3.Int(fresh_name('repeat_item_after_raise'))
         exc = new_sym_exc(I, 'exc!h%d!%d' % (k, occ))
         exc.extra['origin'] = ('hole', k)
         g['raised_exc'] = exc
@@ -448,6 +458,34 @@ class K3State:
         g['extcalls'][-1]['result'] = r
         return r
 
+    def _repeat_key(self, key):
+        if models.is_concrete(key):
+            k = models.concretise(key)
+            if isinstance(k, (str, tuple)):
+                return k
+        raise Unsupported('repeat dictionary key %r' % (key,))
+
+    def repeat_get(self, I, key):
+        """repeat[key] (dict.__getitem__ of the repeat dictionary): the RepeatItem registered
+        for the key, KeyError if there is none"""
+        k = self._repeat_key(key)
+        rm = I.ghost.setdefault('repeat_map', {})
+        rm0 = I.ghost.setdefault('repeat_map0', {})
+        if k not in rm:
+            # nothing is known about the entry at entry of the schema: present or absent
+            if I.decide(z3.Bool(fresh_name('repeat_entry_absent')), 'repeat-entry-absent'):
+                rm0.setdefault(k, None)
+                raise Raised(VExc(KeyError, [key]))
+            rm[k] = z3.Int(fresh_name('repeat_item_outer'))
+            I.assume(rm[k] > 0)
+            rm0.setdefault(k, rm[k])
+        return VAny(Val.obj(rm[k]))
+
+    def repeat_set(self, I, key, v):
+        k = self._repeat_key(key)
+        t = to_any(v).t
+        I.ghost.setdefault('repeat_map', {})[k] = Val.oid(t)
+
     def repeat_call(self, I, args, kwargs, node):
         """getname('repeat')(key, iterable): tal.RepeatDict.__call__ contract:
         returns (iterator over list(iterable), its length); None iterates nothing"""
@@ -465,6 +503,13 @@ class K3State:
         it = RepeatIter(n, fresh_name('items'))
         I.ghost.setdefault('repeats', []).append((args, it))
         I.ghost['T'].append(('repeat', args[0]))
+        # ghost: which RepeatItem the repeat dictionary holds for this key (RepeatDict.__call__
+        # contract: self[key] = RepeatItem(...))
+        item = z3.Int(fresh_name('repeat_item'))
+        I.assume(item > 0)
+        I.ghost.setdefault('repeat_items', []).append(item)
+        if models.is_concrete(args[0]) and isinstance(models.concretise(args[0]), (str, tuple)):
+            I.ghost.setdefault('repeat_map', {})[models.concretise(args[0])] = item
         I.assume(z3.Implies(Val.is_none(to_any(args[1]).t), n == 0))
         return VTuple([it, VInt(n)])
 
@@ -737,6 +782,25 @@ def k3_prims():
         classes = [getattr(builtins, _c(x)) for x in a[1:]]
         return VBool(models.sym_exc_isinstance(xs[-1], classes))
 
+    def repeat_kept(I, a, k, n):
+        """repeat_kept('i'): every child executed so far left the repeat dictionary's entry for
+        that name as it found it (so repeat['i'] still describes the enclosing loop)"""
+        xs = I.ghost.get('repeat_kept', {}).get(_c(a[0]), [])
+        return VBool(z3.And(xs) if xs else z3.BoolVal(True))
+
+    def repeat_restored(I, a, k, n):
+        """repeat_restored('i'): if the repeat dictionary had an entry for the key when the
+        schema started, it has the same entry now"""
+        key = _c(a[0])
+        rm, rm0 = I.ghost.get('repeat_map', {}), I.ghost.get('repeat_map0', {})
+        if key not in rm:
+            return VBool(True)           # never touched
+        if key in rm0:
+            return VBool(True) if rm0[key] is None else VBool(rm[key] == rm0[key])
+        # overwritten without having been read: whatever was there is lost
+        absent0 = z3.Bool(fresh_name('repeat_entry0_absent'))
+        return VBool(z3.Or(absent0, rm[key] == z3.Int(fresh_name('repeat_item0'))))
+
     def repeat_failed(I, a, k, n):
         """the operand of tal:repeat could not be iterated (list() raised)"""
         return VBool(bool(I.ghost.get('repeat_failed')))
@@ -1001,7 +1065,7 @@ def k3_prims():
              scope_frame, template_pos, template_rpos, token_now, ext_count, ext_token, ext_last, ext_raised, ext_callee, ext_result, ext_arg, ext_out, ext_i18n, is_stream,
              is_rcontext, is_scope_copy, scope_arg_visible, attr_of, module_function, globals_visible,
              in_local, translate_arg, translate_result, normalize, i18n0,
-             holes_here, repeat_failed, i18n_now, i18n_at, global_now, handler_calls, handler_configured,
+             holes_here, repeat_failed, repeat_kept, repeat_restored, i18n_now, i18n_at, global_now, handler_calls, handler_configured,
              translate_calls, quote_calls, errorinfo_of, token_at_eval, token_pos)}
 
 
